@@ -92,7 +92,9 @@ pub trait BlsTimeCrypt:
             // peek returns the amount actually used whereas try_from does not
             // thus both are used.
             let prefix = uint_zigzag::Uint::try_from(&plaintext[..overhead]).unwrap();
-            let len = prefix.0 as usize;
+            // A declared length that does not fit in usize can never be satisfied;
+            // it must not be narrowed to a small value that happens to fit
+            let len = usize::try_from(prefix.0).unwrap_or(usize::MAX);
             // The length prefix is not covered by the hash that authenticates the
             // message, so only its canonical (shortest) encoding is accepted
             if len <= plaintext.len() - overhead && prefix.to_vec().len() == overhead {
